@@ -16,12 +16,21 @@ import (
 // clipped) together with the magnitude the tolerance is proportional to; TLC
 // decides whether the residuals are inside the band.  No comparison is made
 // here.
+//
+// Binary magnitude (round 2): a case may carry an exponent e and a unit
+// exponent ue.  The inputs named in each law below are multiplied by 2^e
+// (exact), the residuals and the magnitude are logged in units of 2^ue (so the
+// band stays relative to the magnitude of the inputs); which ue belongs to
+// which law is Algebra.tla's RealDeg, written into the case by the generator
+// and checked again by the judge.
 
 type realCase struct {
 	K    string `json:"k"`
 	Law  string `json:"law"`
 	Seed int64  `json:"seed"`
 	I    int    `json:"i"`
+	E    int    `json:"e"`
+	Ue   int    `json:"ue"`
 }
 
 type resLine struct {
@@ -32,6 +41,8 @@ type resLine struct {
 	Nan  bool   `json:"nan"`
 	Seed int64  `json:"seed"`
 	I    int    `json:"i"`
+	E    int    `json:"e"`
+	Ue   int    `json:"ue"`
 	Id   int    `json:"id"`
 }
 
@@ -47,6 +58,8 @@ type boxRealLine struct {
 	Nan  bool    `json:"nan"`
 	Seed int64   `json:"seed"`
 	I    int     `json:"i"`
+	E    int     `json:"e"`
+	Ue   int     `json:"ue"`
 	Id   int     `json:"id"`
 }
 
@@ -128,36 +141,69 @@ func ceilMag(x float64) int {
 	return int(math.Ceil(x)) + 1
 }
 
+func sign(x int) int {
+	if x < 0 {
+		return -1
+	}
+	if x > 0 {
+		return 1
+	}
+	return 0
+}
+
+func scaleMat(m mat.Matrix4x4, e int, rows, cols int) mat.Matrix4x4 {
+	a := matArr(m)
+	f := p2(e)
+	out := make([]float64, 16)
+	for k, x := range a {
+		if k/4 < rows && k%4 < cols {
+			x *= f
+		}
+		out[k] = x
+	}
+	return matOf(out)
+}
+
 func execReal(c realCase, id int, emit func(any)) {
 	r := rand.New(rand.NewSource(c.Seed*1000003 + int64(c.I)*7919 + int64(len(c.Law))))
-	ln := resLine{K: "res", Law: c.Law, Res: []int{}, Mag: 1, Seed: c.Seed, I: c.I, Id: id}
-	add3 := func(a, b vector3.Float64) { ln.Res = append(ln.Res, residual3(a, b, &ln.Nan)...) }
+	ln := resLine{K: "res", Law: c.Law, Res: []int{}, Mag: 1, Seed: c.Seed, I: c.I, E: c.E, Ue: c.Ue, Id: id}
+	u := p2(-c.Ue) // residuals are logged in units of 2^ue
+	add3 := func(a, b vector3.Float64) { ln.Res = append(ln.Res, residual3(sc3(a, -c.Ue), sc3(b, -c.Ue), &ln.Nan)...) }
 	failed := guard(func() {
 		switch c.Law {
-		case "C17.QuatLengthReal": // |q.Rotate(v)| = |v|
-			q, v := rquat(r), rvec(r, 100)
-			ln.Res = append(ln.Res, residual(q.Rotate(v).Length()-v.Length(), &ln.Nan))
-			ln.Mag = ceilMag(v.Length())
-		case "C17.QuatComposeReal": // (q1*q2).Rotate(v) = q1.Rotate(q2.Rotate(v))
-			q1, q2, v := rquat(r), rquat(r), rvec(r, 100)
+		case "C17.QuatLengthReal": // |q.Rotate(v)| = |v|                                   (v * 2^e)
+			q, v := rquat(r), sc3(rvec(r, 100), c.E)
+			ln.Res = append(ln.Res, residual((q.Rotate(v).Length()-v.Length())*u, &ln.Nan))
+			ln.Mag = ceilMag(v.Length() * u)
+		case "C17.QuatComposeReal": // (q1*q2).Rotate(v) = q1.Rotate(q2.Rotate(v))          (v * 2^e)
+			q1, q2, v := rquat(r), rquat(r), sc3(rvec(r, 100), c.E)
 			add3(q1.Multiply(q2).Rotate(v), q1.Rotate(q2.Rotate(v)))
-			ln.Mag = ceilMag(v.Length())
-		case "C17.QuatAxisFixed": // a rotation fixes its (non-unit) axis
-			ax := raxis(r)
+			ln.Mag = ceilMag(v.Length() * u)
+		case "C17.QuatAxisFixed": // a rotation fixes its (non-unit) axis                   (axis * 2^e)
+			ax := sc3(raxis(r), c.E)
 			q := quaternion.FromTheta((r.Float64()*2-1)*2*math.Pi, ax)
 			add3(q.Rotate(ax), ax)
-			ln.Mag = ceilMag(ax.Length())
+			ln.Mag = ceilMag(ax.Length() * u)
 		case "C17.RotationToReal": // RotationTo(a,b).Rotate(a) = b for unit a, b
 			a, b := raxis(r).Normalized(), raxis(r).Normalized()
 			add3(quaternion.RotationTo(a, b).Rotate(a), b)
 			ln.Mag = 1
-		case "C17.MatInverseReal": // A * A^-1 = A^-1 * A = I
+		case "C17.MatInverseReal": // A * A^-1 = A^-1 * A = I      (all of A, or only its linear 3x3 part, * 2^e: dimensionless)
 			var a mat.Matrix4x4
+			affine := false
 			for {
-				a = rmat(r, 4, r.Intn(2) == 0)
+				affine = r.Intn(2) == 0
+				a = rmat(r, 4, affine)
 				if math.Abs(a.Determinant()) >= 0.5 {
 					break
 				}
+			}
+			if affine && r.Intn(2) == 0 && c.E >= -20 && c.E <= 20 {
+				// small (large) scale, translation of ordinary size; the condition number of such a
+				// matrix grows like 2^|e|, beyond 2^20 it is not a well conditioned input any more
+				a = scaleMat(a, c.E, 3, 3)
+			} else {
+				a = scaleMat(a, c.E, 4, 4)
 			}
 			inv := a.Inverse()
 			id4 := matArr(mat.Identity())
@@ -168,43 +214,49 @@ func execReal(c realCase, id int, emit func(any)) {
 				ln.Res = append(ln.Res, residual(x-id4[i], &ln.Nan))
 			}
 			ln.Mag = ceilMag(4 * maxAbs(a) * maxAbs(inv))
-		case "C17.MatMulAssoc": // (A*B).MulPosition(v) = A.MulPosition(B.MulPosition(v)) for affine A, B
+		case "C17.MatMulAssoc": // (A*B).MulPosition(v) = A.MulPosition(B.MulPosition(v)) for affine A, B   (rows 1-3 of A * 2^e)
 			a, b, v := rmat(r, 4, true), rmat(r, 4, true), rvec(r, 10)
-			add3(a.Multiply(b).MulPosition(v), a.MulPosition(b.MulPosition(v)))
 			ln.Mag = ceilMag(16 * maxAbs(a) * maxAbs(b) * (v.Length() + 1))
-		case "C17.MatDetMul": // det(A*B) = det(A) * det(B)
+			a = scaleMat(a, c.E, 3, 4)
+			add3(a.Multiply(b).MulPosition(v), a.MulPosition(b.MulPosition(v)))
+		case "C17.MatDetMul": // det(A*B) = det(A) * det(B)                                 (A * 2^e: degree 4)
 			a, b := rmat(r, 2, false), rmat(r, 2, false)
+			ln.Mag = ceilMag(math.Abs(a.Determinant()*b.Determinant()) + 24*math.Pow(maxAbs(a)*maxAbs(b)*4, 4)/256)
+			a = scaleMat(a, c.E, 4, 4)
 			da, db := a.Determinant(), b.Determinant()
-			ln.Res = append(ln.Res, residual(a.Multiply(b).Determinant()-da*db, &ln.Nan))
-			ln.Mag = ceilMag(math.Abs(da*db) + 24*math.Pow(maxAbs(a)*maxAbs(b)*4, 4)/256)
-		case "C17.MatAddReal": // (A+B).MulPosition(v) = A.MulPosition(v) + B.MulPosition(v) - (0,0,0) ; and (A+B)+C = A+(B+C)
+			ln.Res = append(ln.Res, residual((a.Multiply(b).Determinant()-da*db)*u, &ln.Nan))
+		case "C17.MatAddReal": // (A+B).MulPosition(v) = A.MulPosition(v) + B.MulPosition(v) - (0,0,0) ; and (A+B)+C = A+(B+C)   (A, B, C * 2^e)
 			a, b, cc, v := rmat(r, 4, false), rmat(r, 4, false), rmat(r, 4, false), rvec(r, 10)
+			ln.Mag = ceilMag(8 * (maxAbs(a) + maxAbs(b) + maxAbs(cc)) * (v.Length() + 1))
+			a, b, cc = scaleMat(a, c.E, 4, 4), scaleMat(b, c.E, 4, 4), scaleMat(cc, c.E, 4, 4)
 			add3(a.Add(b).MulPosition(v), a.MulPosition(v).Add(b.MulPosition(v)))
 			l, rr := matArr(a.Add(b).Add(cc)), matArr(a.Add(b.Add(cc)))
 			for i := range l {
-				ln.Res = append(ln.Res, residual(l[i]-rr[i], &ln.Nan))
+				ln.Res = append(ln.Res, residual((l[i]-rr[i])*u, &ln.Nan))
 			}
-			ln.Mag = ceilMag(8 * (maxAbs(a) + maxAbs(b) + maxAbs(cc)) * (v.Length() + 1))
-		case "C17.TRSReal": // Transform(v) = q.Rotate(s o v) + t ; array forms agree
+		case "C17.TRSReal": // Transform(v) = q.Rotate(s o v) + t ; array forms agree           (t, s * 2^e)
 			t, q, s, v := rvec(r, 50), rquat(r), rvec(r, 3), rvec(r, 20)
+			ln.Mag = ceilMag(t.Length() + 3*s.Length()*v.Length())
+			t, s = sc3(t, c.E), sc3(s, c.E)
 			x := trs.New(t, q, s)
 			add3(x.Transform(v), q.Rotate(s.MultByVector(v)).Add(t))
 			add3(x.TransformArray([]vector3.Float64{v})[0], x.Transform(v))
 			cp := []vector3.Float64{v}
 			x.TransformInPlace(cp)
 			add3(cp[0], x.Transform(v))
-			ln.Mag = ceilMag(t.Length() + 3*s.Length()*v.Length())
-		case "C17.MeshReal": // mesh-level transforms move every position as the transform moves the point
+		case "C17.MeshReal": // mesh-level transforms move every position as the transform moves the point   (positions, t * 2^e)
 			n := 1 + r.Intn(6)
 			pos := make([]vector3.Float64, n)
 			for i := range pos {
-				pos[i] = rvec(r, 20)
+				pos[i] = sc3(rvec(r, 20), c.E)
 			}
-			t, q, s := rvec(r, 50), rquat(r), rvec(r, 3)
+			t, q, s := sc3(rvec(r, 50), c.E), rquat(r), rvec(r, 3)
 			m := latticeMesh(pos)
 			x := trs.New(t, q, s)
 			rot, tra, sca, app := meshPositions(m.Rotate(q)), meshPositions(m.Translate(t)), meshPositions(m.Scale(s)), meshPositions(m.ApplyTRS(x))
-			ln.Res = append(ln.Res, len(rot)-n, len(tra)-n, len(sca)-n, len(app)-n)
+			for _, l := range []int{len(rot), len(tra), len(sca), len(app)} { // a wrong count is far outside any band
+				ln.Res = append(ln.Res, sign(l-n)*1000000000)
+			}
 			for i := 0; i < n && i < len(rot) && i < len(tra) && i < len(sca) && i < len(app); i++ {
 				add3(rot[i], q.Rotate(pos[i]))
 				add3(tra[i], pos[i].Add(t))
@@ -212,9 +264,9 @@ func execReal(c realCase, id int, emit func(any)) {
 				add3(app[i], x.Transform(pos[i]))
 			}
 			ln.Mag = ceilMag(50 + 3*3*2*35)
-		case "C17.BoxReal":
+		case "C17.BoxReal": //                                                              (all points * 2^e, units of 2^(ue-16))
 			bl := boxRealLine{K: "boxreal", Lo: []int{0, 0, 0}, Hi: []int{0, 0, 0}, Pts: [][]int{}, Pc: []bool{}, Qs: [][]int{},
-				Qc: []bool{}, Cp: [][]int{}, Seed: c.Seed, I: c.I, Id: id}
+				Qc: []bool{}, Cp: [][]int{}, Seed: c.Seed, I: c.I, E: c.E, Ue: c.Ue, Id: id}
 			const S = 65536
 			sc := func(v vector3.Float64) []int {
 				out := make([]int, 3)
@@ -223,14 +275,14 @@ func execReal(c realCase, id int, emit func(any)) {
 						bl.Nan = true
 						continue
 					}
-					out[i] = int(math.Max(-(1<<30), math.Min(1<<30, math.Round(x*S))))
+					out[i] = int(math.Max(-(1<<30), math.Min(1<<30, math.Round(x*u*S))))
 				}
 				return out
 			}
 			n := 2 + r.Intn(6)
 			pts := make([]vector3.Float64, n)
 			for i := range pts {
-				pts[i] = rvec(r, 50)
+				pts[i] = sc3(rvec(r, 50), c.E)
 			}
 			k := 1 + r.Intn(n)
 			box := geometry.NewAABBFromPoints(pts[:k]...)
@@ -247,7 +299,7 @@ func execReal(c realCase, id int, emit func(any)) {
 				bl.Pc = append(bl.Pc, box.Contains(p))
 			}
 			for i := 0; i < 8; i++ {
-				q := rvec(r, 70)
+				q := sc3(rvec(r, 70), c.E)
 				bl.Qs = append(bl.Qs, sc(q))
 				bl.Qc = append(bl.Qc, box.Contains(q))
 				bl.Cp = append(bl.Cp, sc(box.ClosestPoint(q)))
